@@ -109,7 +109,7 @@ def tlc(spec_dir, module, cfg, workers=1, timeout=900, env=None, xmx="4g", extra
     jopts = ["-XX:+UseParallelGC", "-Xss1g", f"-Xmx{xmx}", "-DTLA-Library=" + os.pathsep.join([LIBDIR] + [os.path.join(ROOT, "spec", d) for d in ("doc", "codec", "term")])]
     if deque:
         jopts.append("-Dtlc2.tool.queue.IStateQueue=StateDeque")
-    cmd = ["java"] + jopts + ["-cp", JAR, "tlc2.TLC", "-workers", str(workers), "-metadir", meta, "-cleanup", "-noGenerateSpecTE",
+    cmd = ["java"] + jopts + ["-cp", JAR, "tlc2.TLC", "-workers", str(workers), "-metadir", meta, "-cleanup", "-noGenerateSpecTE", "-checkpoint", "0",
                                "-config", cfg] + (extra or []) + [module + ".tla"]
     t0 = time.time()
     try:
